@@ -131,6 +131,22 @@ int main(int argc, char** argv) {
       bool pos = CL::IsPositive(p); (void)pos; (void)ar; (void)ln; (void)b; (void)b2;
       bump(C_LIB, 14); if (t != p || s != p) bump(C_NONTRIVIAL); },
     [&](u64 i) { bool open = i % 2; i /= 2; Case k; k.set("f", "utils").set("P", Paths{PA[i]}).set("open", open).set("mag", magclass); return k.s(); }});
+  // ---- F8b: multiply wound paths: L laps round a base polygon (accumulating arithmetic: areas, winding counts, offsets of coincident paths)
+  static const int LAPS[] = {1, 2, 3, 4, 5, 8};
+  std::vector<Path> bases = {{{-M, -M}, {M, -M}, {M, M}, {-M, M}}, {{-M, -M}, {M, 0}, {-M, M}}, {{-M, -M}, {M, M}, {M, -M}, {-M, M}}, {{-M, M}, {M, M}, {M, -M}, {-M, -M}}};
+  if (magclass <= 2 && want("laps")) fam.push_back({"laps", bases.size() * 6 * 2, [&, bases](u64 i, bool) {
+      bool open = i % 2; i /= 2; int L = LAPS[i % 6]; i /= 6; Path p; for (int l = 0; l < L; ++l) for (auto& v : bases[i]) p.push_back(v);
+      CL::Path64 q = VFC_NS::to64(p); double eps = M > 1 ? (double)M / 2 : 0.5;
+      double ar = CL::Area(q); bool pos = CL::IsPositive(q); double ln = CL::Length(q, !open); (void)ar; (void)pos; (void)ln;
+      CL::Path64 t = CL::TrimCollinear(q, open), sp = CL::SimplifyPath(q, eps, !open), rd = CL::RamerDouglasPeucker(q, eps);
+      auto pip = CL::PointInPolygon(CL::Point64((int64_t)0, (int64_t)0), q); (void)pip;
+      for (int fr = 0; fr < 4; ++fr) { BoolOut o = VFC_NS::boolop(2, fr, Paths{p}, Paths(), Paths(), true, false); if (!o.closed.empty()) bump(C_NONTRIVIAL); }
+      BoolOut x = VFC_NS::boolop(4, 1, Paths{p}, Paths{bases[(i + 1) % bases.size()]}, open ? Paths{p} : Paths(), true, false); (void)x;
+      for (int jt = 0; jt < 4; ++jt) { CL::ClipperOffset co(2.0, M > 1 ? (double)M / 64 : 0.25); co.AddPaths(CL::Paths64{q}, (CL::JoinType)jt, open ? CL::EndType::Butt : CL::EndType::Polygon); CL::Paths64 s2; co.Execute(M > 1 ? (double)M / 4 : 1.0, s2); co.Execute(M > 1 ? -(double)M / 4 : -1.0, s2); }
+      CL::Paths64 mk = CL::MinkowskiSum(CL::Path64{CL::Point64((int64_t)0, (int64_t)0), CL::Point64((int64_t)1, (int64_t)0), CL::Point64((int64_t)0, (int64_t)1)}, q, !open); (void)mk;
+      CL::Paths64 rc = CL::RectClip(CL::Rect64(-M / 2 - 1, -M / 2 - 1, M / 2 + 1, M / 2 + 1), CL::Paths64{q}); (void)rc;
+      bump(C_LIB, 20); },
+    [&, bases](u64 i) { bool open = i % 2; i /= 2; int L = LAPS[i % 6]; i /= 6; Case k; k.set("f", "laps").set("base", Paths{bases[i]}).set("laps", L).set("open", open).set("mag", magclass); return k.s(); }});
   // ---- F9: C export functions with null pointers, empty arrays and small paths
   if (magclass == 0 && want("exports")) fam.push_back({"exports", N2 * 5 * 3, [&](u64 i, bool) {
       int variant = i % 3; i /= 3; int ct = i % 5; i /= 5; const Path& p = P2[i];
